@@ -28,6 +28,7 @@ Inductive prog :=
 | PNotReady (rest : prog)                (* deferred.not_ready() *)
 | PReport (p : priority) (rest : prog)   (* reports.emit_report(p, ...) *)
 | PIfAwaiting (d : N) (pt pe : prog)     (* if d.is_awaiting: pt else: pe   (the flag is read by deferred.py) *)
+| PRemember (d : N) (rest : prog)        (* deferred.remember_cycle(d) *)
 | PCall (body rest : prog)               (* a function call: `return` inside ends the call only *)
 | PWait (d : N) (body rest : prog)       (* v = d.wait() ; rest  -- BaseDeferred.wait with [body] as d._wait():
                                             refused at once while speculating if d is in not_ready_yet; otherwise
@@ -94,6 +95,7 @@ Fixpoint eval (p : prog) (s : mstate) : outcome * mstate :=
                   end
       end
   | PIfAwaiting d pt pe => if flags (g s) d then eval pt s else eval pe s
+  | PRemember d rest => eval rest (mk_mstate (remember_cycle d (g s)) (latches s))
   | PCall body rest =>
       match eval body s with
       | (ORaise e, s') => (ORaise e, s')
@@ -149,9 +151,9 @@ Fixpoint raised_in (p : prog) : list exn :=
   match p with
   | PEnd | PReturn => []
   | PRaise e => [e]
-  | PNotReady r | PReport _ r => raised_in r
+  | PNotReady r | PReport _ r | PRemember _ r => raised_in r
   | PIfAwaiting _ a b | PCall a b | PWait _ a b => raised_in a ++ raised_in b
   | PWith c b r => (match c with CHandle _ (ObjRaises e) => [e] | _ => [] end) ++ raised_in b ++ raised_in r
   end.
 
-Definition initial_gstate : gstate := mk_gstate 0 [] (fun _ => false) [] [].
+Definition initial_gstate : gstate := mk_gstate 0 [] (fun _ => false) [] [] [] [].
